@@ -44,7 +44,7 @@ def run_both(exe, drv, script, timeout=120):
     for l in script:
         ms.append(l)
         if l.strip() == "load":
-            if k < len(infos) and infos[k].startswith("I "):
+            if k < len(infos):
                 ms.append(infos[k])
             k += 1
     rc2, out2, err2 = C.sh([drv], input=("\n".join(ms) + "\n").encode(), timeout=timeout)
@@ -200,13 +200,15 @@ class Evaluator:
         self.run, self.exe, self.drv = run, exe, drv
         self.stats = {"calls": 0, "invalid": 0, "os_events": 0, "hook_events": 0, "full_to_complete": 0, "enosys": 0, "dummy": 0}
 
-    def evaluate(self, script, tag, expect_this=None):
+    def evaluate(self, script, tag):
         run = self.run
         cl, ml, crash = run_both(self.exe, self.drv, script)
         if crash:
             run.violation("harness-crash:" + tag, "C harness crashed / sanitizer report", "kind: input\nscript:\n%s\nend-script\n%s" % ("\n".join(script), crash))
         # walk the script to know the state at each output line
         T, mode, pres, ci = None, "os", 0, 0
+        pending = None
+        tainted = False
         st = {"mempol": G.EMPTY}
         state_lines = []     # config/state lines of the current topology block (for the shrunk replay)
         block = 0
@@ -215,7 +217,7 @@ class Evaluator:
             if not t:
                 continue
             if t[0] == "new":
-                state_lines = [l]; T = None; mode = "os"; block += 1
+                state_lines = [l]; T = None; mode = "os"; block += 1; tainted = False
                 continue
             if t[0] in ("src", "flags", "env", "filter", "os", "hookret", "mode", "destroy"):
                 state_lines.append(l)
@@ -233,21 +235,37 @@ class Evaluator:
                 if t[0] == "os" and t[1] == "ret" and t[2] in ("getcpu", "all"):
                     st["getcpu_fail"] = int(t[3]) < 0
                 continue
+            if t[0] == "#cfg":
+                state_lines.append(l)
+                pending = (t[1], G.expected_thissystem_cfg(t[2] == "1", t[3] == "1", t[4] == "1", None if t[5] == "-" else int(t[5])))
+                continue
             if t[0] == "load":
                 state_lines.append(l)
+                T = None
                 if ci < len(cl) and cl[ci].startswith("I "):
                     T = G.Topo(cl[ci])
-                    if expect_this is not None and block in expect_this:
-                        name, want = expect_this[block]
-                        run.count(cl[ci], nontrivial=True, kind="thissystem")
+                    mline = ml[ci] if ci < len(ml) else "<missing>"
+                    rp = "kind: input\nscript:\n%s\nend-script\nimpl:  %s\nmodel: %s\n" % ("\n".join(state_lines), cl[ci], mline)
+                    if pending is not None:
+                        name, want = pending
+                        run.count(cl[ci] + "|" + "|".join(x for x in state_lines if x.startswith("#cfg")), nontrivial=True, kind="thissystem")
+                        tainted = T.this != want      # later model/impl differences on this handle are consequences
                         if T.this != want:
-                            run.violation("thissystem:" + name, "is_thissystem=%d, expected %d for %s" % (T.this, want, name),
-                                          "kind: input\nscript:\n%s\nend-script\n" % "\n".join(state_lines))
+                            run.violation("thissystem:" + name, "is_thissystem=%d, expected %d for the last load's configuration (%s); load history of the handle: %s" % (
+                                T.this, want, name, [x for x in state_lines if x.startswith("#cfg")]), rp)
+                        elif mline != cl[ci]:
+                            run.violation("correspondence:thissystem:" + name, "model and implementation differ after load: impl=%r model=%r" % (cl[ci], mline), rp, no_input=True)
+                        else:
+                            run.cov["traces_validated_against_impl"] += 1
                         # hook installation: native hooks iff this system, else every dummy except alloc
                         wanth = None if T.this else (1 << 22) - 1 - (1 << 20)
                         if wanth is not None and T.hooks != wanth:
-                            run.violation("dummy-hooks-installed:" + name, "hook slots %x, expected %x" % (T.hooks, wanth),
-                                          "kind: input\nscript:\n%s\nend-script\n" % "\n".join(state_lines))
+                            run.violation("dummy-hooks-installed:" + name, "hook slots %x, expected %x" % (T.hooks, wanth), rp)
+                        self.stats["reloads"] = self.stats.get("reloads", 0) + (1 if sum(1 for x in state_lines if x == "load") > 1 else 0)
+                elif pending is not None and pending[0].startswith("ok:"):
+                    run.violation("load-failed:" + pending[0], "a load expected to succeed failed: %s" % (cl[ci] if ci < len(cl) else "<missing>"),
+                                  "kind: input\nscript:\n%s\nend-script\n" % "\n".join(state_lines))
+                pending = None
                 ci += 1
                 continue
             if not G.CALL_RE.match(l):
@@ -279,7 +297,7 @@ class Evaluator:
             for key, what in bad:
                 run.violation(key, what + "  [" + l + "]", replay)
             if canon(a, call, T, mode, st) != canon(b, call, T, mode, st):
-                if not bad:
+                if not bad and not tainted:
                     run.violation("correspondence:%s:%s" % (mode, call["cmd"]),
                                   "model and implementation differ on `%s` (%s): impl=%r model=%r" % (l, tag, a, b), replay, no_input=True)
             else:
@@ -306,20 +324,26 @@ def build_scripts(run, exe):
         raise RuntimeError("phase 0 (loading the topology configurations) failed rc=%d: %s" % (rc, err.decode(errors="replace")[-2000:]))
     topos = [G.Topo(i) if i.startswith("I ") else None for i in infos]
 
+    fails = G.failing_configs(C.VERIF)
+
+    def stage(cfg, explicit_flags=False):
+        name, lines, kind, flag, env = cfg
+        envs = [l for l in lines if l.startswith("env")]
+        body = [l for l in lines if not l.startswith("env")]
+        if explicit_flags and not any(l.startswith("flags") for l in body):
+            body.append("flags 0")
+        return envs + body + [G.cfg_line(name, kind, flag, env), "load"] + ["env " + e.split()[1] for e in envs]
+
     scripts = []
     for proc, (pre, ncalls) in enumerate([([], 70 if not thorough else 400), (["os pm_unsupported 1", "os maxnodes 128"], 40 if not thorough else 250)]):
         s = list(pre)
-        expect = {}
-        block = 0
-        for ti, ((name, lines, kind, flag, env), T) in enumerate(zip(cfgs, topos)):
+        for ti, (cfg, T) in enumerate(zip(cfgs, topos)):
             if T is None:
                 continue
             if proc == 1 and ti % 3 != 0 and not thorough:
                 continue
-            envs = [l for l in lines if l.startswith("env")]
-            block += 1
-            expect[block] = (name, G.expected_thissystem(kind, flag, env))
-            s += envs + ["new"] + [l for l in lines if not l.startswith("env")] + ["load"]
+            name = cfg[0]
+            s += ["new"] + stage(("ok:" + name,) + cfg[1:])
             # the hooks hwloc installed + the (fake) kernel
             s += ["mode os"] + G.gen_os_state(rng)
             if proc == 0 and (ti < 4 or thorough):
@@ -334,8 +358,25 @@ def build_scripts(run, exe):
             if proc == 0 and ti < 2:
                 s += ["mode hooks 3fffff", "hookret all 0 keep 0:1 2"] + G.boundary_calls(T)
                 s += ["mode hooks 0"] + G.boundary_calls(T)[:600]
-            s += ["destroy"] + ["env " + e.split()[1] for e in envs]
-        scripts.append((s, expect))
+            s += ["destroy"]
+        if proc == 0:
+            # handle REUSE: one or two FAILED loads (any configuration) on the same hwloc_topology_t, then this
+            # configuration; the hooks must be those of the last load alone
+            for ti, (cfg, T) in enumerate(zip(cfgs, topos)):
+                if T is None:
+                    continue
+                for rep in range(1 if not thorough else 3):
+                    s += ["new"]
+                    for k in range(rng.choice([1, 1, 2])):
+                        s += stage(rng.choice(fails))
+                    s += stage(("ok:reuse:" + cfg[0],) + cfg[1:], explicit_flags=True)
+                    s += ["mode os"] + G.gen_os_state(rng)
+                    c, n = T.cs.text(), T.ns.text()
+                    s += ["scb %s 2" % c, "gcb 2", "gcb 0", "glcl 2", "spmb 0 %s 2 32" % n, "gpmb 0 32", "smb %s 2 34" % n, "gmb 34",
+                          "samb 4096 %s 2 32" % n, "amb 4096 %s 2 36" % n]
+                    s += G.gen_calls(rng, T, 12)
+                    s += ["destroy"]
+        scripts.append(s)
     return scripts
 
 
@@ -510,11 +551,11 @@ def check(run, replay=None):
         run.cov["replay"] = replay
         return run.finish(proof, trusted=TRUSTED)
     for p in sorted(glob.glob(os.path.join(C.VERIF, "corpus", "c10", "*.case"))):
-        lines = [l.replace("@REPO@", C.REPO) for l in open(p).read().split("\n") if l.strip() and not l.startswith("#")]
+        lines = [l.replace("@REPO@", C.REPO).replace("@VERIF@", C.VERIF) for l in open(p).read().split("\n") if l.strip() and not l.startswith("#")]
         ev.evaluate(lines, "corpus:" + os.path.basename(p))
         run.bump("corpus")
-    for i, (s, expect) in enumerate(build_scripts(run, exe)):
-        ev.evaluate(s, "gen%d" % i, expect_this=expect)
+    for i, s in enumerate(build_scripts(run, exe)):
+        ev.evaluate(s, "gen%d" % i)
     run.cov["clause_population"] = ev.stats
     loadtrace_part(run, exe, drv)
     live_part(run, live)
